@@ -13,7 +13,7 @@
    [blocks_ok]: well-formed CIDs, sections within MaxAllowedSectionSize; [hashes_ok hok]: every block
    hashes to its CID; [cids_indexable]: CIDs of at most 2048 bytes (MaxIndexCidSize); sizes < 2^63. *)
 From GoCar Require Import Bytes Varint Cid Header Frame V2Header Scan Index Store CliCmds.
-From GoCarProofs Require Import StoreInv CliBase CliWalk CliProducers CliConcat CliFilter CliClosure CliTheorems CliGet CliExamples.
+From GoCarProofs Require Import StoreInv CliBase CliWalk CliProducers CliConcat CliFilter CliClosure CliTheorems CliGet CliAppend CliExamples.
 
 (* ---- car list / car root ------------------------------------------------------------------------------ *)
 Theorem C19_list :
@@ -92,6 +92,46 @@ Theorem C19_filter_v2 :
       = Ok (2, filter_roots sel inv roots, mkscan (filter_spec sel inv bs) EEof).
 Proof. exact filter_v2_reads_back. Qed.
 Print Assumptions C19_filter_v2.
+
+(* --append (only with --version 2): the existing output -- any CARv2 without data padding over
+   header ohb / blocks st, whatever its IndexOffset and whatever follows its payload -- is resumed;
+   the result is the CARv2 of the existing roots and   st ++ (selected input blocks whose multihash
+   st does not hold, identity blocks dropped, first occurrence only),  with a fresh index. *)
+Theorem C19_filter_append_output :
+  forall hok hdrdec, hdrdec pragma_body = Some ([], 2) ->
+  forall sel inv hb roots bs file ohb oroots st hi lo ioff trailer,
+    hdr_ok hdrdec hb roots -> blocks_ok bs -> hashes_ok hok bs -> cids_indexable bs ->
+    valid_input hb bs file ->
+    hdr_ok hdrdec ohb oroots -> blen (enc_header (Some oroots) 1) = blen ohb ->
+    Forall (blk_ok default_maxs) st ->
+    hi < two64 -> lo < two64 -> ioff < two63 ->
+    51 + blen (payload_hb ohb st) + blen trailer < two63 ->
+    let st' := st ++ dedup_from (map fst st) (filter (fun b => match_filter sel inv (fst b)) bs) in
+    51 + blen (payload_hb ohb st') < two64 ->
+    filter_car hok hdrdec sel inv 2 true file (Some (v2file hi lo 0 ioff (payload_hb ohb st) trailer))
+    = (true, Some (v2file 0 0 0 (51 + blen (payload_hb ohb st')) (payload_hb ohb st')
+                          (idx_write (filter_index ohb st')))).
+Proof. exact filter_car_append. Qed.
+Print Assumptions C19_filter_append_output.
+
+Theorem C19_filter_append :
+  forall hok hdrdec, hdrdec pragma_body = Some ([], 2) ->
+  forall sel inv hb roots bs file ohb oroots st hi lo ioff trailer,
+    hdr_ok hdrdec hb roots -> blocks_ok bs -> hashes_ok hok bs -> cids_indexable bs ->
+    valid_input hb bs file ->
+    hdr_ok hdrdec ohb oroots -> blen (enc_header (Some oroots) 1) = blen ohb ->
+    blocks_ok st -> hashes_ok hok st ->
+    hi < two64 -> lo < two64 -> ioff < two63 ->
+    51 + blen (payload_hb ohb st) + blen trailer < two63 ->
+    let st' := st ++ dedup_from (map fst st) (filter (fun b => match_filter sel inv (fst b)) bs) in
+    51 + blen (payload_hb ohb st') + blen (idx_write (filter_index ohb st')) < two63 ->
+    exists out st_,
+      filter_car hok hdrdec sel inv 2 true file (Some (v2file hi lo 0 ioff (payload_hb ohb st) trailer))
+        = (true, Some out) /\
+      br_read_all hok hdrdec default_ropts out = Ok (2, oroots, mkscan st' EEof) /\
+      inspect_car hok hdrdec true out = Ok st_ /\ is_count st_ = N.of_nat (length st').
+Proof. exact filter_append_reads_back. Qed.
+Print Assumptions C19_filter_append.
 
 (* ---- car index, car index create, car detach-index ------------------------------------------------------------ *)
 (* C19_index_payload_unchanged + "index = regenerated index" + C19_detach in one statement: with a
